@@ -122,6 +122,9 @@ def cases(tier, seed):
     def add(**kw):
         kw["seed"] = int(rng.integers(1 << 30))
         kw["depth"] = depth
+        kw["pre_op"] = [None, None, None, "mut", None, None, "mut+clone", None][len(out) % 8]
+        if kw.get("algo") == "PPO" and kw.get("squash") and len(out) % 2:
+            kw["pre_op"] = "mut"
         a = kw.get("act", {})
         if kw.get("algo") in MA_DET + ["IPPO"] and a.get("type") == "box" and a.get("name") in OTHER_BOX and len(out) % 2:
             # the agents of the second policy group ("other_0") act in ANOTHER box of the same shape: bounds must be
@@ -671,11 +674,29 @@ def _build_single(case):
     if algo == "PPO" and case.get("squash"):
         kw["net_config"] = {"squash_output": True, "head_config": {"hidden_size": [16]}}
     try:
-        return cls(osp, asp, **kw), osp, asp
+        return _pre_op(cls(osp, asp, **kw), case), osp, asp
     except CaseTimeout:
         raise
     except Exception as e:
         raise _BuildFailed(f"{algo}: {type(e).__name__}: {e}")
+
+
+def _pre_op(agent, case):
+    """Agents in a population are clones that went through architecture mutations: a quarter of the cases act with such an
+    agent (three real Mutations.mutation rounds and / or a clone) instead of a freshly constructed one."""
+    op = case.get("pre_op")
+    if not op:
+        return agent
+    from vf import agentops
+
+    if "mut" in op:
+        m = agentops.make_mutations("arch", seed=case["seed"] % 100000, new_layer_prob=0.2)
+        for g in range(3):
+            agentops.seed_all(case["seed"] + g)
+            agent = m.mutation([agent], pre_training_mut=False)[0]
+    if "clone" in op:
+        agent = agent.clone()
+    return agent
 
 
 def _build_multi(case):
@@ -692,7 +713,7 @@ def _build_multi(case):
     if case.get("head"):
         kw["net_config"] = _head_config(case["head"])
     try:
-        return cls(osp, asp, agent_ids=list(AGENTS), **kw), osp, asp
+        return _pre_op(cls(osp, asp, agent_ids=list(AGENTS), **kw), case), osp, asp
     except CaseTimeout:
         raise
     except Exception as e:
